@@ -11,6 +11,7 @@ pub mod out;
 pub mod readers;
 pub mod runner;
 pub mod sanit;
+pub mod sched;
 pub mod seq;
 pub mod watch;
 
@@ -69,6 +70,7 @@ fn main() {
         "readers" => readers::c15_main(&args),
         "iso-c04" => iso::c04_main(&args),
         "files" => files::child_main(&args),
+        "sched" => sched::child_main(&args),
         "cksum" => readers::c19_main(&args),
         "drive" => drive::main(&args),
         other => {
